@@ -5,5 +5,6 @@ CONSTANTS Variant = "ok"
  MaxN = 5
  MaxV = 3
  MaxRedel = 0
+ MaxFault = 0
 INVARIANTS Emit
 CHECK_DEADLOCK FALSE
